@@ -98,37 +98,41 @@ def build(torch):
             return None
 
         F.append(Fam(f"{nm}_dim", f"aten_{nm}_dim", (lambda f: lambda x, d, kd_: f(x, d, kd_))(tfn), G3.gen_allany_dim,
-                     (lambda any__: lambda a, k: f"(CAllAnyDim {b(any__)} {lz(sh(a[0]))} {z(a[1])} {b(a[2])} {fibers(a)})")(any_),
+                     (lambda any__: lambda a, k: f"(CAllAnyDim {{F1}} {b(any__)} {lz(sh(a[0]))} {z(a[1])} {b(a[2])} {fibers(a)})")(any_),
                      lambda a, k, out: r3sd(out),
                      lambda a, k: (len(sh(a[0])), a[1] < 0, a[2], bool(sh(a[0])) and sh(a[0])[a[1]] == 0, a[0]["t"]),
                      chk=3, quick=45, thorough=450,
                      floors={"negative dim": (lambda a, k: a[1] < 0, 6), "keepdim": (lambda a, k: a[2], 8)} | ({} if any_ else {"reduction over nothing": (lambda a, k: bool(sh(a[0])) and sh(a[0])[a[1]] == 0, 2)})))
         F[-1].finding = find_dim
+        F[-1].flags = lambda a, k, ops, sk=None: ("Greater" in ops, False)
         F.append(Fam(f"{nm}_dims", f"aten_{nm}_dims", (lambda f: lambda x, d, kd_: f.dims(x, d, kd_))(top), G3.gen_allany_dims,
-                     (lambda any__: lambda a, k: f"(CAllAnyDims {b(any__)} {lz(sh(a[0]))} {olz(a[1])} {b(a[2])})")(any_),
+                     (lambda any__: lambda a, k: f"(CAllAnyDims {{F1}} {{F2}} {b(any__)} {lz(sh(a[0]))} {olz(a[1])} {b(a[2])})")(any_),
                      lambda a, k, out: r3shape(out),
                      lambda a, k: (len(sh(a[0])), None if a[1] is None else len(a[1]), a[2], any(d < 0 for d in a[1] or [])),
                      chk=3, quick=45, thorough=450,
                      floors={"two or more dims": (lambda a, k: a[1] is not None and len(a[1]) >= 2, 2),
                              "dim omitted": (lambda a, k: a[1] is None, 2), "keepdim false, dims": (lambda a, k: bool(a[1]) and not a[2], 4)}))
         F[-1].finding = find_dims
+        F[-1].flags = lambda a, k, ops, sk=None: ("Greater" in ops, ops == ["Cast"] and a[1] is not None and (a[1] == [] or not sh(a[0])))
         F.append(Fam(nm, f"aten_{nm}", (lambda f: lambda x: f(x))(tfn), G3.gen_allany,
-                     (lambda any__: lambda a, k: f"(CAllAny {b(any__)} {lz(sh(a[0]))})")(any_),
+                     (lambda any__: lambda a, k: f"(CAllAny {{F1}} {b(any__)} {lz(sh(a[0]))})")(any_),
                      lambda a, k, out: r3shape(out), lambda a, k: (len(sh(a[0])), 0 in sh(a[0]), a[0]["t"]),
                      chk=3, quick=20, thorough=200))
         F[-1].finding = (lambda any__: lambda a, k, want, desc: "empty-reduced-dim" if any__ and 0 in sh(a[0]) else None)(any_)
+        F[-1].flags = lambda a, k, ops, sk=None: ("Greater" in ops, False)
 
     # ------------------------------------------------------------------ argmax / argmin
     for mn, nm in ((False, "argmax"), (True, "argmin")):
         tfn = torch.argmin if mn else torch.argmax
         F.append(Fam(nm, f"aten_{nm}", (lambda f: lambda x, d, kd_: f(x, d, kd_))(tfn), G3.gen_arg,
-                     (lambda mn_: lambda a, k: f"(CArg {b(mn_)} {lz(sh(a[0]))} {oz(a[1])} {b(a[2])})")(mn),
+                     (lambda mn_: lambda a, k: f"(CArg {{F1}} {b(mn_)} {lz(sh(a[0]))} {oz(a[1])} {b(a[2])})")(mn),
                      lambda a, k, out: r3shape(out),
                      lambda a, k: (len(sh(a[0])), a[1] is None, a[1] is not None and a[1] < 0, a[2]),
                      chk=3, quick=50, thorough=500,
                      floors={"dim omitted": (lambda a, k: a[1] is None, 5), "negative dim": (lambda a, k: a[1] is not None and a[1] < 0, 8),
                              "rank 0": (lambda a, k: not sh(a[0]), 2), "keepdim with dim": (lambda a, k: a[2] and a[1] is not None, 6)}))
         F[-1].finding = lambda a, k, want, desc: "dim-none-keepdim" if a[1] is None and a[2] and len(sh(a[0])) >= 2 and desc.startswith("shape") else None
+        F[-1].flags = lambda a, k, ops, sk=None: (bool(ops) and ops[-1] == "Reshape" and len(ops) > 1, False)
 
     # ------------------------------------------------------------------ prod
     def dt_lit(k):
@@ -144,16 +148,18 @@ def build(torch):
         return None
 
     F.append(Fam("prod", "aten_prod", lambda x, dtype=None: torch.prod(x, dtype=t_of.get(dtype)), G3.gen_prod,
-                 lambda a, k: f"(CProd {lz(sh(a[0]))} {CODE[a[0]['t']]} {dt_lit(k)})", lambda a, k, out: r3st(out),
+                 lambda a, k: f"(CProd {{F1}} {lz(sh(a[0]))} {CODE[a[0]['t']]} {dt_lit(k)})", lambda a, k, out: r3st(out),
                  lambda a, k: (len(sh(a[0])), a[0]["t"], k.get("dtype")), chk=3, quick=30, thorough=300,
                  floors={"int32 promoted": (lambda a, k: a[0]["t"] == "int32" and not k, 1), "dtype given": (lambda a, k: bool(k), 3)}))
     F[-1].finding = prod_find
+    F[-1].flags = lambda a, k, ops, sk=None: (a[0]["t"] == "bool" and "Cast" in ops and k.get("dtype") is None, False)
     F.append(Fam("prod_dim_int", "aten_prod_dim_int", lambda x, d, kd_, dtype=None: torch.prod(x, d, kd_, dtype=t_of.get(dtype)), G3.gen_prod_dim,
-                 lambda a, k: f"(CProdDim {lz(sh(a[0]))} {CODE[a[0]['t']]} {z(a[1])} {b(a[2])} {dt_lit(k)})", lambda a, k, out: r3st(out),
+                 lambda a, k: f"(CProdDim {{F1}} {{F2}} {lz(sh(a[0]))} {CODE[a[0]['t']]} {z(a[1])} {b(a[2])} {dt_lit(k)})", lambda a, k, out: r3st(out),
                  lambda a, k: (len(sh(a[0])), a[0]["t"], a[1] < 0, a[2], k.get("dtype")), chk=3, quick=50, thorough=500,
                  floors={"negative dim": (lambda a, k: a[1] < 0 and bool(sh(a[0])), 5), "dtype given": (lambda a, k: bool(k), 4),
                          "keepdim": (lambda a, k: a[2], 4)}))
     F[-1].finding = prod_find
+    F[-1].flags = lambda a, k, ops, sk=None: ("Cast" in ops and k.get("dtype") is None, "Identity" in ops)
 
     # ------------------------------------------------------------------ logsumexp
     F.append(Fam("logsumexp", "aten_logsumexp", lambda x, d, kd_: torch.logsumexp(x, d, kd_), G3.gen_logsumexp,
@@ -229,20 +235,33 @@ def build(torch):
                 return f(*a, **k)
         return g
 
-    vfloors = {"dim list, correction 1": (lambda a, k: len(a) > 1 and isinstance(a[1], list) and len(a[1]) >= 1 and k.get("correction", 1) == 1, 5),
-               "correction 0": (lambda a, k: k.get("correction") == 0, 3), "dim omitted": (lambda a, k: len(a) == 1 or a[1] is None, 3),
-               "correction = count (inf / nan)": (lambda a, k: var_cls(False)(a, k)[3] == 0 and k.get("correction", 1) > 0, 2)}
-    for nm, fn_, wm, sq, ref in (
-            ("var_correction", "aten_var_correction", False, False, lambda x, d=None, correction=None, keepdim=False: torch.var(x, dim=d, correction=correction, keepdim=keepdim)),
-            ("std_correction", "aten_std_correction", False, True, lambda x, d=None, correction=None, keepdim=False: torch.std(x, dim=d, correction=correction, keepdim=keepdim)),
-            ("var_mean_correction", "aten_var_mean_correction", True, False, lambda x, d=None, correction=None, keepdim=False: list(torch.var_mean(x, dim=d, correction=correction, keepdim=keepdim)))):
-        F.append(Fam(nm, fn_, quiet(ref), G3.gen_var_correction, var_call(wm, sq, False),
-                     (lambda wm_: lambda a, k, out: r3floats(out[0] if wm_ else out))(wm), var_cls(False), chk=3,
-                     quick=48 if nm == "var_correction" else 32, thorough=640 if nm == "var_correction" else 320, floors=vfloors if nm == "var_correction" else {}))
-        F[-1].finding = var_find(False)
-    F.append(Fam("var_dim", "aten_var_dim", quiet(lambda x, d, u, kd_: torch.var(x, d, u, kd_)), G3.gen_var_dim, var_call(False, False, True),
-                 lambda a, k, out: r3floats(out), var_cls(True), chk=3, quick=32, thorough=320))
-    F[-1].finding = var_find(True)
+    # prims::var is the registered variance (aten_var* / aten_std* of core.py carry no torch_op decorator: outside the property)
+    def pv_cnt(a):
+        s = sh(a[0])
+        return numel(s if not a[1] else [s[d] for d in a[1]]) if s else 1
+
+    def pv_find(a, k, want, desc):
+        c = Fraction(a[2])
+        if not a[1] and c != 0:
+            return "empty-dims-with-correction"
+        if pv_cnt(a) == 0:
+            return "reduced-extent-0"
+        if c > pv_cnt(a):
+            return "correction-exceeds-count"
+        return None
+
+    from onnxscript.function_libs.torch_lib.ops import prims as _prims  # noqa: F401  (Fam.mod = "prims")
+    F.append(Fam("prims_var", "prims_var", quiet(lambda x, d, c: torch.ops.prims.var(x, d, c)), G3.gen_prims_var,
+                 lambda a, k: (f"(CPrimsVar {{F1}} {{F2}} {lz(sh(a[0]))} {lz(a[1])} {q(Fraction(a[2]))} "
+                               "[" + "; ".join(q(v) for v in ssds(a, a[1], False)) + "])"),
+                 lambda a, k, out: r3floats(out),
+                 lambda a, k: (len(sh(a[0])), len(a[1]), int(np.sign(Fraction(a[2]) - pv_cnt(a))), int(np.sign(a[2])), Fraction(a[2]).denominator != 1),
+                 chk=3, mod="prims", quick=90, thorough=900,
+                 floors={"two or more dims": (lambda a, k: len(a[1]) >= 2, 8), "correction 0": (lambda a, k: a[2] == 0, 4),
+                         "negative correction": (lambda a, k: a[2] < 0, 3), "correction = count (inf / nan)": (lambda a, k: Fraction(a[2]) == pv_cnt(a) and a[2] > 0, 3),
+                         "every dimension listed": (lambda a, k: bool(a[1]) and len(a[1]) == len(sh(a[0])), 4)}))
+    F[-1].finding = pv_find
+    F[-1].flags = lambda a, k, ops, sk=None: (not a[1] and a[2] != 0 and bool(ops), "Max" in ops)
 
     # ------------------------------------------------------------------ scatter family
     def sc_find(kind):
@@ -278,16 +297,18 @@ def build(torch):
                                                          "0-d index": (lambda a, k: not sh(a[2]) and bool(sh(a[0])), 1)}))
     F[-1].finding = sc_find("value")
     F.append(Fam("scatter_add", "aten_scatter_add", lambda x, d, i, s: torch.scatter_add(x, d, i, s), G3.gen_scatter_add,
-                 lambda a, k: f"(CScatterAdd {lz(sh(a[0]))} {z(a[1])} {lz(sh(a[2]))} {lz(sh(a[3]))})", lambda a, k, out: r3shape(out), sc_cls,
+                 lambda a, k: f"(CScatterAdd {{F1}} {lz(sh(a[0]))} {z(a[1])} {lz(sh(a[2]))} {lz(sh(a[3]))})", lambda a, k, out: r3shape(out), sc_cls,
                  chk=3, quick=40, thorough=400, floors={"negative dim": (lambda a, k: a[1] < 0 and bool(sh(a[0])), 6)}))
     F[-1].finding = sc_find("add")
+    F[-1].flags = lambda a, k, ops, sk=None: ("Unsqueeze" in ops, False)
     F.append(Fam("scatter_reduce", "aten_scatter_reduce",
                  lambda x, d, i, s, r, include_self=True: torch.scatter_reduce(x, d, i, s, r, include_self=include_self), G3.gen_scatter_reduce,
-                 lambda a, k: f"(CScatterReduce {lz(sh(a[0]))} {z(a[1])} {lz(sh(a[2]))} {lz(sh(a[3]))} {b(k['include_self'])})",
+                 lambda a, k: f"(CScatterReduce {{F1}} {lz(sh(a[0]))} {z(a[1])} {lz(sh(a[2]))} {lz(sh(a[3]))} {b(k['include_self'])})",
                  lambda a, k, out: r3shape(out), lambda a, k: sc_cls(a, k) + (a[4], k["include_self"]),
                  chk=3, quick=50, thorough=500, floors={"include_self false": (lambda a, k: not k["include_self"], 8),
                                                          "rank 0": (lambda a, k: not sh(a[0]), 2)}))
     F[-1].finding = sc_find("reduce")
+    F[-1].flags = lambda a, k, ops, sk=None: ("Unsqueeze" in ops, False)
 
     # ------------------------------------------------------------------ convolution
     def conv_find(a, k, want, desc):
@@ -306,7 +327,7 @@ def build(torch):
         return f
 
     F.append(Fam("convolution", "aten_convolution", lambda *a: A.convolution(*a), G3.gen_convolution,
-                 lambda a, k: (f"(CConvolution {lz(sh(a[0]))} {lz(sh(a[1]))} {b(a[2] is not None)} {lz(a[3])} {lz(a[4])} {lz(a[5])} "
+                 lambda a, k: (f"(CConvolution {{F1}} {lz(sh(a[0]))} {lz(sh(a[1]))} {b(a[2] is not None)} {lz(a[3])} {lz(a[4])} {lz(a[5])} "
                                f"{b(a[6])} {lz(a[7])} {z(a[8])})"),
                  lambda a, k, out: r3shape(out),
                  lambda a, k: (len(sh(a[1])) - 2, a[6], a[2] is None, len(a[3]), len(a[4]), len(a[5]), len(a[7]), a[8]),
@@ -314,12 +335,28 @@ def build(torch):
                  floors={"transposed": (lambda a, k: a[6], 10), "one-entry stride / padding list, 2-D or 3-D": (lambda a, k: len(sh(a[1])) > 3 and len(a[3]) == 1 and len(a[4]) == 1, 4),
                          "output_padding > 0": (lambda a, k: a[6] and any(a[7]), 3), "groups 2": (lambda a, k: a[8] == 2, 5)}))
     F[-1].finding = conv_find
+    def conv_flags(a, k, ops, sk=None):
+        e = len(sh(a[1])) - 2
+        for o, ints in sk or []:
+            if o == "ConvTranspose":
+                return (e > 1 and len(a[7]) == 1 and len(ints[3]) == e, False)
+        return (False, False)
+    F[-1].flags = conv_flags
     for e in (1, 2, 3):
         F.append(Fam(f"conv{e}d", f"aten_conv{e}d", (lambda e_: lambda *a: getattr(A, f"conv{e_}d")(*a))(e), G3.gen_convnd(e),
-                     (lambda e_: lambda a, k: (f"(CConvNd {e_} {lz(sh(a[0]))} {lz(sh(a[1]))} {b(a[2] is not None)} {lz(a[3])} {lz(a[4])} {lz(a[5])} {z(a[6])})"))(e),
+                     (lambda e_: lambda a, k: (f"(CConvNd {{F1}} {{F2}} {e_} {lz(sh(a[0]))} {lz(sh(a[1]))} {b(a[2] is not None)} {lz(a[3])} {lz(a[4])} {lz(a[5])} {z(a[6])})"))(e),
                      lambda a, k, out: r3shape(out),
                      lambda a, k: (len(sh(a[0])) - len(sh(a[1])), a[2] is None, len(a[3]), a[6]),
                      chk=3, quick=30, thorough=300,
                      floors={"unbatched": (lambda a, k: len(sh(a[0])) != len(sh(a[1])), 2)} | ({"bias omitted": (lambda a, k: a[2] is None, 4)} if e < 3 else {})))
         F[-1].finding = convnd_find(e)
+
+        def convnd_flags(a, k, ops, sk=None, e=e):
+            lf = False
+            for o, ints in sk or []:
+                if o == "Conv":
+                    lf = e > 1 and ((len(a[3]) == 1 and len(ints[4]) == e) or (len(a[4]) == 1 and len(ints[3]) == 2 * e)
+                                    or (len(a[5]) == 1 and len(ints[0]) == e))
+            return (lf, e == 3 and a[2] is None and "Concat" not in ops)
+        F[-1].flags = convnd_flags
     return F
